@@ -174,6 +174,7 @@ impl Property for C18 {
     }
     fn assumptions(&self) -> Vec<String> {
         vec![
+            "1 in 3 strict reads of an unset variable is also typed into `ucg repl`: its output must not contain the secret or another variable's value".into(),
             "the JSON artifact is decoded with serde_json (JSON output correctness is C03's subject)".into(),
             "variable names that are not barewords are read with the quoted selector form".into(),
         ]
